@@ -25,6 +25,7 @@ type c13cfg struct {
 	spec      int  // speculative attempts (0: none)
 	builtin   string // "", "simple2", "downgrade"
 	cancel    bool
+	hosts     int // default 3
 	outcomes  []string
 	t         [2]int
 }
@@ -129,6 +130,9 @@ func (c *c13cfg) body() {
 	w := &c13world{cfg: c}
 	cl := newCluster(true)
 	ips := []string{"10.0.0.1", "10.0.0.2", "10.0.0.3"}
+	if c.hosts > 0 {
+		ips = ips[:c.hosts]
+	}
 	for _, ip := range ips {
 		cl.add(ip, w.handler(ip))
 	}
@@ -250,6 +254,11 @@ func (c *c13cfg) body() {
 			}
 			vs.Failf(key, "a query not marked idempotent reached servers %d times: %s", n, desc())
 		}
+	}
+	// whenever at least one attempt was made, an error is the last attempt's - never the executor's own
+	// "no hosts available" (that one is for a query that could not be attempted at all)
+	if n > 0 && c.spec == 0 && cls == "no-connections" {
+		vs.Failf("c13:error-not-last-attempts", "%d attempt(s) were made but the caller got ErrNoConnections instead of the last attempt's error: %s", n, desc())
 	}
 	_, dDev, _ := vs.Deviations()
 	if c.spec == 0 && c.builtin == "" {
@@ -394,6 +403,7 @@ func main() {
 	errs := []string{"ok", "unavailable", "readtimeout", "writetimeout", "overloaded", "never", "drop"}
 	cfgs := []*c13cfg{
 		{name: "scripted-policy-sequential", outcomes: errs, t: [2]int{2, 3}},
+		{name: "scripted-policy-1host", hosts: 1, outcomes: []string{"ok", "drop", "unavailable", "never"}, t: [2]int{2, 3}},
 		{name: "scripted-policy-cancel", outcomes: []string{"ok", "unavailable", "never"}, cancel: true, t: [2]int{2, 3}},
 		{name: "simple2-builtin", builtin: "simple2", outcomes: []string{"ok", "unavailable", "never", "drop"}, t: [2]int{2, 3}},
 		{name: "speculative-1", spec: 1, outcomes: []string{"ok", "late", "never", "unavailable"}, t: [2]int{2, 3}},
